@@ -186,6 +186,16 @@ CHECKS = {
              "harness' own rotation code. WrappedDisk has a middle ring that is neither core nor shell and is not judged.",
         technique="TLA+ spec Grid.tla: TLC-checked index arithmetic + TLC trace acceptor over observed addressing",
         ref="DESIGN.md section 4 C19"),
+    "C20": dict(
+        text="Precond.tla defines precondition types (index range, item count, perpendicular, positive, ratio in (0,1], "
+             "below a bound, open angle, requires-assembled, unique, exists) with argument classes on both sides of every "
+             "boundary; the accept/reject expectation of each (call, class) row is derived from the type and TLC checks "
+             "symmetry and that both sides are exercised; a registry maps every row to a concrete call of the real API in a "
+             "randomly placed setting; accepted-silently / valid-arguments-rejected are reported per row.",
+        note="'Rejected' is any exception (the class is recorded in the replay). The list of guarded calls is the one the "
+             "property statement enumerates; zero chain lengths are not judged.",
+        technique="TLA+ spec Precond.tla: TLC-derived decision table over precondition types; replayed row by row into the API",
+        ref="DESIGN.md section 4 C20"),
 }
 
 def main():
